@@ -1406,7 +1406,7 @@ func joinFacts(g *Graph, a, b Facts, widen bool) Facts {
 			if widen && wa != wb {
 				continue
 			}
-			if w > 1<<20 || w < -(1<<20) {
+			if w > 1<<40 || w < -(1<<40) {
 				continue
 			}
 			if wn, ok := dn.dist(u, v); ok && wn <= w {
